@@ -44,12 +44,19 @@ def _strategy(draw):
     assets = []
     for i in range(draw(st.integers(1, 3))):
         cls = draw(st.sampled_from(["simple", "storage", "storage", "contract", "transport", "transport", "multi",
-                                    "orderbook", "orderbook", "storage_mip", "scaled"]))
+                                    "orderbook", "orderbook", "storage_mip", "scaled", "chp_minload"]))
+        if cls == "chp_minload" and (T > 3 or any(x["type"] in ("chp_minload", "chp", "plant") for x in assets)):
+            cls = "storage"      # (binary variables only where the reference can enumerate them)
         if i == 0 and draw(st.integers(0, 3)) > 0:
             cls = "storage"      # something that couples present and future in most cases (else the stages decouple)
         if cls == "storage_mip" and (T > 5 or any(x["type"] == "storage" and (x.get("no_simult") or x.get("max_store_duration")) for x in assets)):
             cls = "storage"      # boolean variables only on short grids, one such storage (exact reference by enumeration)
-        if cls == "scaled":
+        if cls == "chp_minload":
+            a = gen.draw_any(draw, cx, cls, "a%d" % i)
+            a.update(min_runtime=0, wacc=0.0)
+            for k_ in ("start", "end", "ramp", "time_already_running", "last_dispatch"):
+                a.pop(k_, None)
+        elif cls == "scaled":
             a = gen.a_scaled(draw, cx, "a%d" % i, base_cls=draw(st.sampled_from(["simple", "storage", "transport"])))
             a["base"]["wacc"] = 0.0
             if a["base"]["type"] == "storage":
